@@ -7,7 +7,10 @@ for s in $SEEDS; do
   [ -f seeded/$s/patch.diff ] || continue
   git -C /repo apply /verif/seeded/$s/patch.diff || { echo "$s: patch does not apply"; continue; }
   HIT=""
-  for p in $CLAIMED; do
+  OWN=${s%%_*}
+  LIST="$CLAIMED"
+  if [ -z "$ALLCHECKS" ]; then LIST=""; for p in $CLAIMED; do if [ "$p" = "$OWN" ] || echo " $EXTRA " | grep -q " $p "; then LIST="$LIST $p"; fi; done; fi
+  for p in $LIST; do
     OUT=$(./check $p quick 2>&1); RC=$?
     if echo "$OUT" | grep -q "^VIOLATION"; then
       N=$(echo "$OUT" | grep -c "^VIOLATION"); NF=$(echo "$OUT" | grep "^VIOLATION" | grep -c "no-failing-input-found")
